@@ -7,7 +7,6 @@ import (
 	"math/rand/v2"
 	"strconv"
 	"strings"
-	"time"
 
 	"seehuhn.de/go/geom/matrix"
 	"seehuhn.de/go/postscript/cid"
@@ -29,7 +28,7 @@ func init() {
 		Assumptions: []string{
 			"values the reader documents as clamped or normalised are generated inside their ranges: BlueScale in [0,1], StdHW/StdVW in [0,10000], |ItalicAngle| <= 179.9; stratum fonts keeps |real| in 1e-9..1e9 or 0",
 			"stratum wide-reals covers the rest of the float64 range (decimal exponents -308..+308, values next to 1e300 / 1e-300 / MaxFloat64 / the smallest normal number, nine-digit roundings that carry): the bytes are judged over the whole range by the independent reader; the library's reader clamps |x| > 1e300 to 1e300 and flushes |x| < 1e-300 to 0 (cff/dict.go decodeFloat), which - like its other clamps - is not judged (skip class roundtrip:real-outside-the-reader's-1e-300..1e300-clamp)",
-			"stratum subnormal-reals: subnormal numbers cannot carry nine digits; the writer must terminate (it runs in its own goroutine with a 20 s bound, the only place where this check looks at a clock) and the stored number must equal the source up to 5e-9 relative + 4 units of the last subnormal place, or be zero",
+			"stratum subnormal-reals: subnormal numbers cannot carry nine digits; the writer must terminate (a writer that does not return is stopped by the worker watchdog and reported by the driver as a hang) and the stored number must equal the source up to 5e-9 relative + 4 units of the last subnormal place, or be zero",
 			"BlueValues/OtherBlues have at most 14/10 entries (TN5176 delta arrays)",
 			"fractional widths of magnitude >= 10000 are multiples of 1/4; max-min of the widths of a font < 32000",
 			"FontInfo strings are valid UTF-8 (the reader sanitises them)",
@@ -1420,30 +1419,20 @@ func runC13(c *mon.Ctx) {
 		}
 		k.Step(fmt.Sprintf("%s = %g", name, x))
 		k.Distinct(name, x)
-		// the writer runs in its own goroutine: a writer that does not come back
-		// is reported here (bound far above anything a 3-glyph font needs)
-		// instead of stalling the worker for the hard per-case bound
+		// a writer that does not come back is the driver's business: the step
+		// is journaled, the worker's watchdog stops it at the hard per-case
+		// bound and the driver reports the case as a hang (no clock in here)
 		type result struct {
 			data  []byte
 			err   error
 			pv    any
 			stack string
 		}
-		done := make(chan result, 1)
-		go func() {
-			var res result
+		var res result
+		{
 			buf := &bytes.Buffer{}
 			res.pv, res.stack = mon.Try(func() { res.err = f.Write(buf) })
 			res.data = buf.Bytes()
-			done <- res
-		}()
-		var res result
-		select {
-		case res = <-done:
-		case <-time.After(20 * time.Second):
-			k.Eval()
-			k.Fail("hang", "write:subnormal-real:does-not-terminate", "(*cff.Font).Write has not returned after 20 s for a 3-glyph font with %s = %g", name, x)
-			return
 		}
 		k.Eval()
 		if res.pv != nil {
